@@ -1,0 +1,20 @@
+//go:build verif
+
+package manager
+
+import (
+	"context"
+
+	"google.golang.org/grpc"
+
+	gpb "github.com/openconfig/gnmi/proto/gnmi"
+)
+
+// VerifSetSubscribeClient replaces the function that opens the Subscribe
+// stream on a connection (the package variable "exposed for testing") and
+// returns a function restoring the previous one. Only built with the verif tag.
+func VerifSetSubscribeClient(f func(ctx context.Context, conn *grpc.ClientConn) (gpb.GNMI_SubscribeClient, error)) (restore func()) {
+	old := subscribeClient
+	subscribeClient = f
+	return func() { subscribeClient = old }
+}
